@@ -403,15 +403,23 @@ func c17Run(c c17Case, w *c17World, rec *vh.Recorder) error {
 			return vh.Infraf("concurrent run %d: %s", i, con[i].Err)
 		}
 		if seq[i].Foreign != "" {
-			return vh.Violf("C17:foreign-data", "even alone: %s; %s", seq[i].Foreign, desc)
+			return vh.Violf("C17:foreign-data", "even alone: %s; outcome %+v; %s", seq[i].Foreign, seq[i], desc)
 		}
 		if con[i].Foreign != "" {
-			return vh.Violf("C17:foreign-data", "%s; %s", con[i].Foreign, desc)
+			return vh.Violf("C17:foreign-data", "%s; outcome %+v (alone: %+v); %s", con[i].Foreign, con[i], seq[i], desc)
 		}
 		if con[i].PidMatch != "" {
 			return vh.Violf("C17:pid", "%s; %s", con[i].PidMatch, desc)
 		}
 		a, b := seq[i], con[i]
+		if d.Kind == "ping" && (strings.Contains(a.Status, "i/o timeout") || strings.Contains(b.Status, "i/o timeout")) {
+			// container.Ping carries a wall-clock deadline of 3 s by design; on a saturated machine (the thorough tier runs
+			// 8 shards of up to 16 concurrent runs on 16 cores) the container's init may not answer in time. That is the call's
+			// own documented outcome, not one run reaching into another: the ping itself is not judged (a ping that disturbs
+			// another run's call is what TestC17SlowCalls and the run descriptors here observe).
+			rec.Class("ping-hit-its-own-3s-deadline(not judged)", 1)
+			continue
+		}
 		sort.Strings(a.Records)
 		sort.Strings(b.Records)
 		if fmt.Sprintf("%+v", a) != fmt.Sprintf("%+v", b) {
